@@ -9,6 +9,8 @@ RULE_TEXT = {
     'PARSE-YIELD': 'a singleton (or any subtag the part does not own) ends the part and is left for the caller',
     'PARSE-FLUSH': 'a pending key is stored with its values exactly when the next key, a singleton or the end arrives',
 }
+# reported only by the properties that need ExtensionsMap to read its own output (C05 C16 C17); for C03 an empty subtag may also be rejected
+SELFREAD_TEXT = 'the leading empty subtag of its own Display output is skipped'
 _specs = []
 
 
@@ -68,7 +70,7 @@ def analyse(prog, which):
     return _cache[key]
 
 
-def check(prog, rep, which, rules=None, keyprefix='parse'):
+def check(prog, rep, which, rules=None, keyprefix='parse', selfread=False):
     try:
         res = analyse(prog, which)
     except (pxm.Limit, MemoryError, RecursionError) as ex:
@@ -96,6 +98,11 @@ def check(prog, rep, which, rules=None, keyprefix='parse'):
                 site = span
         rep.ob('%s:%s:%s' % (keyprefix, which, rule), rule, fn, site, '%s parser: %s' % (which, RULE_TEXT[rule]), not lines, detail='\n'.join(lines[:8]),
                how='%d steps in %d (head, state) pairs, %d table rows exercised' % (tc.nsteps, len(tc.pairs), len(tc.rows_hit)), witness=wit)
+    if selfread and which == 'dispatch':
+        v = tc.viol.get('PARSE-SELFREAD', {})
+        lines = ['state %s, %s: %s' % (state, row, msg) for (state, row, msg), _ in sorted(v.items(), key=lambda kv: str(kv[0]))]
+        rep.ob('%s:%s:PARSE-SELFREAD' % (keyprefix, which), 'PARSE-SELFREAD', fn, b['span'], '%s parser: %s' % (which, SELFREAD_TEXT), not lines, detail='\n'.join(lines[:4]),
+               how='first-subtag state of the dispatcher table')
     # every row of the table must have been exercised by some step (else the comparison is vacuous for it)
     allrows = set((q, r.name) for q, rows in sp[which].items() if isinstance(rows, list) and q != 'disjoint' for r in rows)
     reach_states = set(q for _, q in tc.pairs)
